@@ -301,9 +301,8 @@ pub open spec fn send_fut_inv<T>(f: SendFuture<'_, T>) -> bool {
 pub open spec fn recv_fut_inv<T>(f: ReceiveFuture<'_, T>) -> bool {
     &&& (f.state is Zero ==> f.sig.fresh())
     &&& !f.sig.is_sync()
-    &&& (f.state is Zero && big::<T>() ==> f.data.mem_contents() is Uninit)
-    // the slot lent to the peer is initialised exactly when the peer filled it
-    &&& (f.state is Waiting && big::<T>() ==> ((f.data.mem_contents() is Init) <==> ptr_filled(f.sig.slot())))
+    // once the peer has filled the lent slot it is initialised (evidence for reading / dropping it)
+    &&& (f.state is Waiting && big::<T>() ==> (ptr_filled(f.sig.slot()) ==> f.data.mem_contents() is Init))
 }
 /// the states in which `ReceiveFuture::poll` starts a new receive: Zero, or Done for the stream (re-arm)
 pub open spec fn recv_starts<T>(f: ReceiveFuture<'_, T>) -> bool {
